@@ -305,7 +305,9 @@ def _close(rng, maps, syms, extra_out=False):
         outs = [k for k in outs if k not in alpha]
     if outs and rng.random() < 0.5 and len(alpha) < 6:
         alpha.append(rng.choice(outs))
-    for k in outs + syms:                                   # at least four event keys, otherwise N=4 is never reached
+    # at least four event keys, otherwise N=4 is never reached: further output keys, then concrete keys foreign to the layout
+    # (never a symbol that is not in the layout: it would be an undeclared, unconstrained name shared by all paths)
+    for k in outs + K('F13', 'F14', 'F15', 'F16'):
         if len(alpha) >= 4:
             break
         if k not in alpha:
@@ -396,6 +398,9 @@ def build(repo, native, tier, seed, log=None):
         if key in seen:
             return
         seen.add(key)
+        if alphabet is not None:
+            layout_syms = set(k for m in maps for k in m['frm'] + m['to'] + m.get('absb', []) + list(m.get('rep', (0, None))[1] or ()) if isinstance(k, str))
+            assert all(isinstance(k, int) or k in layout_syms for k in alphabet), 'alphabet symbol outside the layout in ' + name
         specs.append(Spec(name, [dict(m) for m in maps], N=N, depth=depth, alphabet=alphabet, note=note, no_foreign=no_foreign))
 
     for i, maps in enumerate(test_layouts(repo)):
